@@ -113,7 +113,7 @@ def vm_stage(run, ck, topic, n_quick, n_thorough, extra=None):
     with open(out, "w") as f:          # an evenly spread sample (the exhaustive families are far larger than what is traced)
         f.write("\n".join(lines[off::stride][:want]) + "\n")
     os.remove(full)
-    verdicts, recs = run.validate(out, "Trace_VM", parts=10, chunk=6, label=topic + "/vm", collect=("CAND", "DRIFT"))
+    verdicts, recs = run.validate(out, "Trace_VM", parts=10, chunk=6, label=topic + "/vm", collect=("CAND", "CANDF", "DRIFT"))
     simple_violations(run, ck, verdicts, recs, topic + "/vm")
     cands, drift, summ = run.collected["CAND"], run.collected["DRIFT"], run.last_summary
     st = run.stages[-1]
@@ -122,7 +122,8 @@ def vm_stage(run, ck, topic, n_quick, n_thorough, extra=None):
     run.evaluations += summ[5]
     for d in drift[:5]:
         ck.log("[vm] model drift (diagnostic): %s" % d)
-    if cands:
+    fcands = run.collected.get("CANDF", [])
+    if cands or fcands:
         by_id = {}
         for ln in open(out).read().split("\n"):
             if ln.strip():
@@ -145,6 +146,16 @@ def vm_stage(run, ck, topic, n_quick, n_thorough, extra=None):
                 n += 1
                 case = {"id": "%s#v%d" % (rec["id"], n), "tree": rec["tree"], "bind": bind, "progs": rec.get("progs", {}),
                         "funcs": rec.get("funcs", {}), "forms": ["bound"]}
+                f.write(json.dumps(case) + "\n")
+            for c in fcands[:2000]:
+                rec = by_id.get(c[1])
+                if rec is None:
+                    continue
+                funcs = dict(rec.get("funcs", {}))
+                funcs.update(json.loads(c[2]))        # outcome records {"o":"ok","v":..} / {"o":"err","c":..}
+                n += 1
+                case = {"id": "%s#f%d" % (rec["id"], n), "tree": rec["tree"], "bind": rec.get("bind", {}), "progs": rec.get("progs", {}),
+                        "funcs": funcs, "forms": ["bound"]}
                 f.write(json.dumps(case) + "\n")
         of = os.path.join(run.work, topic + ".cand.obs.ndjson")
         run.replay(cf, of)
